@@ -248,6 +248,12 @@ def method_mock(ctx):
             lp = loops(e)
             g = py_guard(e)
             okr = okr and len(lp) == 2 and lp[1][1] == pat("self._effects") and e.call[1] == lp[1][0][0] and equivalent(g, A(done)) is None and lo < e.seq < hi
+        # ... and the list is not changed while it is iterated (removing the applied effect inside the loop skips every second one)
+        mutators = [e for e in effs if len(loops(e)) == 2 and loops(e)[1][1] == pat("self._effects") and e.call[0] == "call" and e.call[1][0] == "a"
+                    and e.call[1][1] == pat("self._effects") and e.call[1][2] in ("remove", "pop", "append", "insert", "clear", "extend", "reverse", "sort")]
+        mutators += [s_ for s_ in stores if s_.target == pat("self._effects") and len(loops(s_)) == 2 and loops(s_)[1][1] == pat("self._effects")]
+        ctx.check(not mutators, "C43.mock-effects-list-stable", mutators[0].site if mutators else fn.site, f"MethodMock.effect_process[{name}].effects-loop",
+                  found="; ".join(tstr(getattr(x, "call", None) or x.target) for x in mutators) or "the loop only calls the effects", required="the effect list is not modified inside the loop that runs it")
         want_runs = dict((tstr(t), v) for t, v in ex.config)
         has_done_true = any(v for t, v in ex.config if t == done)
         ctx.check(okr and (bool(runs) == has_done_true), "C43.mock-effects-once", runs[0].site if runs else fn.site, f"MethodMock.effect_process[{name}].effects",
